@@ -147,7 +147,7 @@ def gen_history(seed, idx, tier, only_step_faults=False):
         ops.append(op)
 
     def user_op():
-        choices = ["add", "modify", "modify", "remove", "rename", "option", "option", "delivery", "format"]
+        choices = ["add", "modify", "modify", "remove", "rename", "option", "option", "delivery", "format", "move_dir"]
         if len(snapshots) >= 1 and r.random() < 0.5:
             choices += ["revert", "revert"]
         if backdate:
@@ -171,6 +171,26 @@ def gen_history(seed, idx, tier, only_step_faults=False):
                 p.sources[path], p.cps[path] = new[1], new[2]
             ops.append({"op": "write", "path": path, "content": p.sources[path]})
             return "add"
+        if k == "move_dir":
+            # same base name, other directory (optionally with new content): every intermediate keeps its path
+            s_ = r.choice(srcs)
+            newdir = r.choice([d for d in ("src", "src/sub", "other", "v2") if d != os.path.dirname(s_)])
+            dst = newdir + "/" + os.path.basename(s_)
+            if dst in p.sources:
+                return None
+            if r.random() < 0.5:
+                ops.append({"op": "rename", "src": s_, "dst": dst})
+                p.sources[dst] = p.sources.pop(s_)
+            else:
+                c = gen.content(r, small=p.fmt in gen.BITMAP)
+                ops.append({"op": "write", "path": dst, "content": c})
+                ops.append({"op": "remove", "path": s_})
+                del p.sources[s_]
+                p.sources[dst] = c
+            p.cps[dst] = p.cps[s_]
+            p.removed.append(s_)
+            p.glob = False
+            return "move_dir"
         if k == "revert":
             # put the project back to what an earlier invocation saw (undo of edits; fresh mtimes, as an editor or VCS checkout gives)
             snap = r.choice(snapshots)
